@@ -454,6 +454,8 @@ def d6(ctx, prog):
         raise AnalysisError('_CombinationOfTwoFrames.__call__/_set_frames not found')
     # the flag: a self attribute tested in __call__ to choose the slice `[:, i:]` (triangular) versus the whole second chunk
     flags = set()
+    from .. import inline
+    call = inline.inlined(prog, call)          # the two enumerations may live in helper methods selected by the flag
     ldefs = astutil.local_defs(call.node)
 
     def triangular(nodes):
